@@ -219,16 +219,16 @@ def check(ctx):
                     or (a[0] == "call" and fn_name(a[1]) == "isinstance")]
             info.append((e, pols))
         try:
-            (e1, p1), (e2, p2) = info
             node_t = ("iter", n("nodes"))
             inp_t = ("iter", ("call", ("a", node_t, "all_input_nodes"), (), ()))
             guard = ("bool", "and", (("call", ("n", "isinstance"),
                                       (node_t, ("g", "liesel.model.nodes.Dist")), ()),
                                      cmp_("is", inp_t, ("a", node_t, "at"))))
-            ok_g = (e1 == (node_t, inp_t) and (guard, True) in p1
-                    and e2 == (inp_t, node_t) and (guard, False) in p2)
-            detail = f"{short(('tuple', e1) if e1 else ())} if {short(guard)} else " \
-                     f"{short(('tuple', e2) if e2 else ())}"
+            rev_e = [e for e, pols in info if (guard, True) in pols]
+            fwd_e = [e for e, pols in info if (guard, False) in pols]
+            ok_g = rev_e == [(node_t, inp_t)] and fwd_e == [(inp_t, node_t)]
+            detail = f"reversed {[short(('tuple', e)) for e in rev_e]} if {short(guard)} " \
+                     f"else {[short(('tuple', e)) for e in fwd_e]}"
         except Exception as ex:  # pragma: no cover
             detail = f"unrecognised: {ex}"
     ctx.ob("C17.R2", bsg, "the simulation graph reverses exactly the edges from a "
